@@ -634,7 +634,7 @@ func (e *Engine) inScope(fn *ssa.Function) bool {
 // anything they call outside this list needs an intrinsic as usual.
 var libExecPkgs = map[string]bool{
 	"gopkg.in/yaml.v3": true, "slices": true, "maps": true, "sort": true, "strconv": true,
-	"unicode": true, "unicode/utf8": true, "path": true, "strings": true, "bytes": true, "cmp": true,
+	"unicode": true, "unicode/utf8": true, "path": true, "strings": true, "bytes": true, "cmp": true, "internal/stringslite": true,
 }
 
 func (e *Engine) libExecAllowed(fn *ssa.Function) bool {
